@@ -177,6 +177,7 @@ template<class V> static void run(const VpCase* c, VpOutcome* o) {
     }
     const bool scalar = op >= OP_SC0;
     const unsigned f = scalar ? op - OP_SC0 : op;
+    poison_below(c->v[0][0] ^ op);
     if (scalar && W != 1) { o->status = 2; return; }
     bool have = false;
     if (scalar) {
